@@ -52,6 +52,14 @@ def run(ctx, rep):
         rep.finding(R0, 'C05.R0/FindClosingNodeRule._branch_target_hook', m.loc('pytableaux.proof.rules', fn),
                     'FindClosingNodeRule._branch_target_hook', 'no longer targets exactly when _find_closing_node finds a partner')
 
+    from .. import helpersfold
+    res, cons = helpersfold.fold_branch_value_hook(m)
+    rep.consult(*cons)
+    for ok, case, detail in res:
+        rep.instance(R0, ok=ok, nontrivial=('BranchValueHook', case))
+        if not ok:
+            rep.finding(R0, f'C05.R0/BranchValueHook/{case}', cons[0].split(' ')[0], 'BranchValueHook.after_node_add', f'{case}: {detail}')
+
     R1 = rep.rule('C05.R1', 'closure partner patterns: sought at the node\'s own world; pair relation symmetric '
                             '(so arrival order does not matter for the cached branch target)')
     R2 = rep.rule('C05.R2', 'for every subset of literal constraints on one atom: closed by Rules.closure <=> unsatisfiable')
